@@ -27,7 +27,10 @@ import (
 // once there are several (every further run would end the same way and leak its goroutines)
 var stuckHooked, stuckNested int
 
-var parkPoints = []string{"gau.afterRead", "gau.beforeLock", "coll.delete.afterRead"}
+// the sections of the write path, and the end of every plain read a caller makes on the way to its write (no write
+// path of the library or of the trait models driven here reads first: a caller that does - check, then write - gets
+// a step of its own for the read, so that the window between the two can be entered)
+var parkPoints = []string{"gau.afterRead", "gau.beforeLock", "coll.delete.afterRead", "coll.get", "value.get"}
 
 // ---------------------------------------------------------------------------------------------
 // one hooked execution
@@ -42,6 +45,18 @@ type Run struct {
 	Stamps  map[int]int64 // change time stored with each value
 	RNG     int           // rng.Read calls made
 	Stuck   bool          // nested run: the call did not return (a rival made from its callback waits for a lock the call holds)
+	// Changes: the steps of a hooked run after which a plain read of the resources showed something else than before
+	Changes []stepChange
+}
+
+// stepChange: step Step (of thread T, inside its call Op) changed what the resources hold; Res is the result the
+// call reported at that very step ("" if the call had not returned yet)
+type stepChange struct {
+	Step          int
+	T             int
+	Op            Op
+	Before, After string
+	Res           string
 }
 
 // runScheduled executes sc on the real code. The schedule follows prefix as long as it lasts (entries
@@ -68,6 +83,7 @@ func runScheduled(ctl *k4.Controller, sc Scenario, prefix []int, choose func(ena
 	}
 	step := int64(0)
 	pi := 0
+	snap := w.snapshot()
 	for {
 		var enabled []int
 		for t := 0; t < n; t++ {
@@ -122,6 +138,17 @@ func runScheduled(ctl *k4.Controller, sc Scenario, prefix []int, choose func(ena
 		}
 		r.Sched = append(r.Sched, pick)
 		r.Enabled = append(r.Enabled, enabled)
+		if now := w.snapshot(); now != snap {
+			ch := stepChange{Step: int(step), T: pick, Before: snap, After: now}
+			if cur[pick] < len(sc.Progs[pick]) {
+				ch.Op = sc.Progs[pick][cur[pick]]
+			}
+			if len(r.Results[pick]) > before {
+				ch.Res = r.Results[pick][before]
+			}
+			r.Changes = append(r.Changes, ch)
+			snap = now
+		}
 		if len(r.Results[pick]) > before {
 			r.Hist = append(r.Hist, HOp{T: pick, N: cur[pick], Op: sc.Progs[pick][cur[pick]], Inv: inv[pick], Resp: step, Res: r.Results[pick][before], GenID: gen[pick]})
 			cur[pick]++
@@ -340,7 +367,7 @@ func judge(sc Scenario, hist []HOp, final map[int]P) *verdict {
 		return h.Op.target()
 	}
 	for i, h := range hist {
-		if !lostRace(h.Res) || (h.Op.Gen && len(init) >= 10) {
+		if !lostRace(h.Res) || h.Fault || (h.Op.Gen && len(init) >= 10) {
 			continue
 		}
 		need, rivals := 1, 0
@@ -366,6 +393,27 @@ func judge(sc Scenario, hist []HOp, final map[int]P) *verdict {
 		sig := "C02/linearizability/no-sequential-order"
 		return &verdict{sig, "no one-at-a-time order consistent with real time explains the results and the final contents",
 			"some sequential order of the calls on the map specification", strings.Join(hs, "; ") + " ; final " + showContents(final)}
+	}
+	return nil
+}
+
+// judgeSteps: on a hooked run the contents are read after every step. Every call's last lock-delimited section is
+// its commit (the save under the write lock, or Delete's removal), so what the resources hold may differ from one
+// step to the next only across a step in which the released call returned, and returned success: the optimistic
+// read and the change function (preconditions, interceptors, the masked merge) work on the caller's side and leave
+// the stored message as it is, whether or not the write is validated later.
+func judgeSteps(r *Run) *verdict {
+	for _, ch := range r.Changes {
+		if strings.HasPrefix(ch.Res, "ok:") && ch.Res != "ok:nil" {
+			continue
+		}
+		what := "the call had not returned (it was between its optimistic read and its commit)"
+		if ch.Res != "" {
+			what = "the call returned " + ch.Res
+		}
+		return &verdict{"C02/" + ch.Op.K + "/contents-changed-outside-commit",
+			fmt.Sprintf("step %d (thread %d, call %s) changed what the resource holds although %s: only the commit of a call that reports success may change the stored value", ch.Step, ch.T, ch.Op.encode(), what),
+			ch.Before, ch.After}
 	}
 	return nil
 }
@@ -488,7 +536,21 @@ func genScenario(rng *rand.Rand, maxThreads, maxOps int) Scenario {
 	}
 	nt := 2 + rng.Intn(maxThreads-1)
 	// some scenarios are Delete-heavy, increment-only, CAS-only or generate their ids, so that the rarer paths are visited
-	mode := rng.Intn(11)
+	mode := rng.Intn(14)
+	if mode == 11 { // dispenses from one stock record through vendingpb.Model.DispenseInstantly
+		if rng.Intn(6) > 0 {
+			sc.Init[strconv.Itoa(vendID)] = P{int64(rng.Intn(3)), int64(2 + rng.Intn(5))}
+		}
+	}
+	if mode == 13 { // versioned updates and deletes of one publication through publicationpb.ModelServer
+		sc.Clock = "f"
+		if rng.Intn(5) > 0 {
+			sc.Init[strconv.Itoa(pubID)] = P{int64(rng.Intn(3)), 0}
+		}
+	}
+	if mode == 12 { // enter / leave events through enterleavesensorpb.Model.CreateEnterLeaveEvent
+		sc.Init[strconv.Itoa(enterID)] = genVal(rng)
+	}
 	if mode == 3 { // generated ids: a short candidate script makes callers draw the same id; some candidates are taken
 		sc.Cands = [][]int{{0}, {0, 1}, {0, 0, 1}, {1, 0}, {}}[rng.Intn(5)]
 		if rng.Intn(2) == 0 {
@@ -552,6 +614,19 @@ func genScenario(rng *rand.Rand, maxThreads, maxOps int) Scenario {
 					o.WT = pi64(fl.sameWT)
 				}
 				prog = append(prog, o)
+			case mode == 11: // portions repeat (a machine dispensing a fixed portion: last_dispensed is already what is written)
+				prog = append(prog, Op{K: "x", ID: vendID, F: "x" + strconv.Itoa(1+rng.Intn(2))})
+			case mode == 12:
+				prog = append(prog, Op{K: "e", ID: enterID, F: []string{"a1", "b1"}[rng.Intn(2)]})
+			case mode == 13:
+				o := Op{K: "p", ID: pubID, F: "s" + P{int64(rng.Intn(3)), 0}.String()}
+				if rng.Intn(4) == 0 {
+					o = Op{K: "q", ID: pubID, AM: rng.Intn(3) == 0}
+				}
+				if rng.Intn(4) > 0 {
+					o.Expect = &P{int64(rng.Intn(3)), 0}
+				}
+				prog = append(prog, o)
 			case mode == 5: // increments of the Value
 				o := Op{K: "v", ID: valueID, F: []string{"a", "a", "b"}[rng.Intn(3)] + strconv.Itoa(1+rng.Intn(3))}
 				if fl.masks && rng.Intn(2) == 0 {
@@ -579,7 +654,7 @@ func genScenario(rng *rand.Rand, maxThreads, maxOps int) Scenario {
 	if mode == 7 && rng.Intn(4) > 0 {
 		sc.Init[strconv.Itoa(valueID)] = genVal(rng)
 	}
-	if mode != 6 && mode != 7 && rng.Intn(6) == 0 {
+	if mode != 6 && mode != 7 && mode != 13 && rng.Intn(6) == 0 {
 		sc.restrictWritable([]string{"a", "b"}[rng.Intn(2)])
 	}
 	return sc
@@ -714,8 +789,30 @@ func witnessScenarios() []Scenario {
 		{Init: map[string]P{"100": {5, 0}}, Cands: []int{0, 1}, Progs: [][]Op{{gadd(1)}, {gadd(2)}}},
 		{Init: map[string]P{"100": {5, 0}}, Cands: []int{0, 0, 1}, Progs: [][]Op{{gadd(1)}, {Op{K: "d", ID: genBase}}}},
 		{Init: map[string]P{}, Cands: []int{0}, Progs: [][]Op{{gadd(1), Op{K: "d", ID: genBase}}, {gadd(2)}}},
+		// read-modify-write callers of the trait packages (their own interceptors): dispenses from one stock record
+		// (first portion, the same portion again - the stored last_dispensed then equals the one written -, a stock
+		// that runs out, a record that does not exist), enter / leave events
+		{Init: map[string]P{"7": {0, 10}}, Progs: [][]Op{{vendOp(2)}, {vendOp(2)}}},
+		{Init: map[string]P{"7": {0, 10}}, Progs: [][]Op{{vendOp(2), vendOp(2)}, {vendOp(2)}}},
+		{Init: map[string]P{"7": {1, 3}}, Clock: "f", Progs: [][]Op{{vendOp(2)}, {vendOp(3)}}},
+		{Init: map[string]P{}, Progs: [][]Op{{vendOp(1)}, {vendOp(1)}}},
+		{Init: map[string]P{"6": {0, 0}}, Progs: [][]Op{{enterOp("a1")}, {enterOp("a1")}}},
+		{Init: map[string]P{"6": {2, 1}}, Clock: "c", Progs: [][]Op{{enterOp("a1"), enterOp("b1")}, {enterOp("b1")}}},
+		// optimistic concurrency as the publication API offers it (a version = a hash of the content, checked by
+		// the server's own WithExpectedCheck): two writers holding one version, a versioned Delete against an
+		// update that restores the content (ABA), an unversioned update against a versioned one
+		{Init: map[string]P{"5": {1, 0}}, Clock: "f", Progs: [][]Op{{pubOp(2, pp(1, 0))}, {pubOp(3, pp(1, 0))}}},
+		{Init: map[string]P{"5": {1, 0}}, Clock: "f", Progs: [][]Op{{Op{K: "q", ID: pubID, Expect: pp(1, 0)}}, {pubOp(2, pp(1, 0)), pubOp(1, pp(2, 0))}}},
+		{Init: map[string]P{"5": {1, 0}}, Clock: "f", Progs: [][]Op{{pubOp(2, nil)}, {pubOp(3, pp(1, 0))}, {Op{K: "q", ID: pubID, AM: true, Expect: pp(3, 0)}}}},
 	}
 }
+
+func pubOp(body int64, expect *P) Op {
+	return Op{K: "p", ID: pubID, F: "s" + P{body, 0}.String(), Expect: expect}
+}
+
+func vendOp(k int) Op     { return Op{K: "x", ID: vendID, F: "x" + strconv.Itoa(k)} }
+func enterOp(f string) Op { return Op{K: "e", ID: enterID, F: f} }
 
 // nestedWitnesses: the same windows reached without hooks (a rival call made from the call's own callback)
 func nestedWitnesses() []Scenario {
@@ -849,6 +946,23 @@ func main() {
 	res := lib.NewResult("C02", f)
 	rng := lib.NewRand(f.Seed)
 	ctl := k4.New(parkPoints...)
+
+	// the send-timeout family needs the code's five-second send budget to run out: its cases run next to everything else
+	sendResults := make(chan []sendOutcome, 1)
+	go func() {
+		cs := sendCases()
+		outs := make([]sendOutcome, len(cs))
+		var wg sync.WaitGroup
+		for i, c := range cs {
+			wg.Add(1)
+			go func(i int, c sendCase) {
+				defer wg.Done()
+				outs[i] = runSendCase(c)
+			}(i, c)
+		}
+		wg.Wait()
+		sendResults <- outs
+	}()
 
 	tie := res.Tie("k4-schedules", "K4",
 		"each case = one scenario (2-3 writers x 1-2 calls from {Add, Add with a generated id, upsert, Update with expected value/check, delta interceptor, Delete with precondition, Value.Set}, each with or without an update mask on one of the two message fields and a write time, on 1-2 ids + a Value, under a ticking / frozen / coarse injected clock and a scripted id generator) executed on the real code under one schedule forced through the yield points gau.afterRead / gau.beforeLock / coll.delete.afterRead; per-call results (with generated ids), final contents, the change time stored with every value, the number of rng reads and the steps at which every call was invoked and returned (the model's ghost real time invT/respT of C02_linearization_respects_step_order) compared with run(model) on the same schedule; scenarios include plain partial writers (update mask or a resource restricted WithWritablePaths to one field, no precondition, no callback); non-trivial = at least two calls overlapped; distinct = distinct (scenario, schedule)")
@@ -1010,6 +1124,9 @@ func main() {
 		for _, h := range c.run.Hist {
 			mon.Count(codeOf(h.Res))
 		}
+		if v := judgeSteps(c.run); v != nil {
+			mon.Violate(v.sig, v.what, in, v.expected, v.observed)
+		}
 		if v := judge(sc, c.run.Hist, c.run.Final); v != nil {
 			sig := v.sig
 			if sc.Nested {
@@ -1023,6 +1140,8 @@ func main() {
 	// 5. unhooked stress
 	stress(f, res, rng)
 	phase("stress")
+	sendFamily(f, res, <-sendResults)
+	phase("send-timeout")
 
 	if err := res.Write(f.Out); err != nil {
 		lib.Fatal(err)
@@ -1127,6 +1246,16 @@ func (sc Scenario) input(sched []int) map[string]any {
 // optionClass names the option combination of a call (distribution in the evidence)
 func (o Op) optionClass() string {
 	var parts []string
+	switch o.K {
+	case "x":
+		return "opts:trait-caller:vendingpb.DispenseInstantly"
+	case "e":
+		return "opts:trait-caller:enterleavesensorpb.CreateEnterLeaveEvent"
+	case "p":
+		return "opts:trait-caller:publicationpb.ModelServer.UpdatePublication"
+	case "q":
+		return "opts:trait-caller:publicationpb.ModelServer.DeletePublication"
+	}
 	if o.Gen {
 		parts = append(parts, "gen-id")
 	}
@@ -1156,7 +1285,7 @@ func (o Op) optionClass() string {
 
 // plain: a write with no precondition and no interceptor
 func (o Op) plain() bool {
-	return o.K != "d" && !o.EA && o.Expect == nil && o.check() == "n" && !o.After && len(o.F) > 0 && o.F[0] == 's' && len(o.Rivals) == 0
+	return o.K != "d" && !o.trait() && !o.EA && o.Expect == nil && o.check() == "n" && !o.After && len(o.F) > 0 && o.F[0] == 's' && len(o.Rivals) == 0
 }
 
 func codeOf(res string) string {
@@ -1323,6 +1452,41 @@ func stress(f lib.Flags, res *lib.Result, rng *rand.Rand) {
 	}
 }
 
+// sendFamily evaluates the send-timeout cases (they ran concurrently with the rest of the harness).
+func sendFamily(f lib.Flags, res *lib.Result, outs []sendOutcome) {
+	mon := res.Monitor("linearizable-send-timeout",
+		"the property on writes whose publication fails: a backpressured Pull that does not receive makes write A of a Value wait in its send until the code's five-second budget runs out; write B is made while A waits (and returns once the subscriber receives, or times out as well); results, real-time order (A and B overlap) and the final value go through the same independent checker, a call that reported the failed publication counting as 'took effect once inside its interval, or not at all'")
+	tie := res.Tie("send-timeout", "K4",
+		"the same executions as schedules of the publication-layer model (Send.lean: prun = the core model plus, per Value.Set, a publication step that times out or not): A read/change/commit, B read/change/commit, A's publication, B's publication, with the observed time-outs; per-call results (a failed publication reports Unknown AFTER the commit) and the final value compared; non-trivial = a publication timed out while another write was committed")
+	var lines []string
+	for _, o := range outs {
+		lines = append(lines, o.driverLine())
+	}
+	answers, err := lib.RunOnce(f.Driver, lines)
+	if err != nil {
+		tie.Fail(err)
+	}
+	for i, o := range outs {
+		in := o.c.input()
+		nontrivial := o.faultA || o.faultB
+		mon.Eval(o.c.Name, nontrivial, map[string]any{"case": o.c.Name, "observed": o.canon(), "timing": o.note})
+		for _, h := range o.hist {
+			mon.Count(codeOf(h.Res))
+			if h.Fault {
+				mon.Count("publication-timed-out")
+			}
+		}
+		if v := judgeSend(o); v != nil {
+			mon.Violate(v.sig, v.what, in, v.expected, v.observed)
+		}
+		if err == nil && o.ordered {
+			// (a run in which the machine was too busy for the two commits to be seen in order is judged by the
+			// monitor only: it did not necessarily follow the model schedule)
+			tie.Record(lines[i], nontrivial, in, answers[i], o.canon())
+		}
+	}
+}
+
 // ---------------------------------------------------------------------------------------------
 
 func replay(f lib.Flags) int {
@@ -1332,12 +1496,28 @@ func replay(f lib.Flags) int {
 	}
 	raw, _ := json.Marshal(rp.Input)
 	var in struct {
-		Mode string `json:"mode"`
+		Mode  string `json:"mode"`
+		Case  string `json:"case"`
+		Drain bool   `json:"drain"`
 		Scenario
 	}
 	if err := json.Unmarshal(raw, &in); err != nil || len(in.Progs) == 0 {
 		fmt.Println("replay: no concrete input in file (", rp.Kind, ")")
 		return 2
+	}
+	if in.Mode == "send-timeout" {
+		if len(in.Progs) != 2 || len(in.Progs[0]) != 1 || len(in.Progs[1]) != 1 {
+			fmt.Println("replay: a send-timeout input has two writers with one call each")
+			return 2
+		}
+		o := runSendCase(sendCase{Name: in.Case, Init: in.Init["9"], A: in.Progs[0][0], B: in.Progs[1][0], Drain: in.Drain})
+		fmt.Printf("replay send-timeout %s -> %s (%s)\n", in.Case, o.canon(), o.note)
+		if v := judgeSend(o); v != nil {
+			fmt.Printf("STILL FAILS %s: %s (expected %s, observed %s)\n", v.sig, v.what, v.expected, v.observed)
+			return 1
+		}
+		fmt.Println("replay: property holds on this input now")
+		return 0
 	}
 	sc := in.Scenario
 	if sc.Init == nil {
@@ -1378,6 +1558,10 @@ func replay(f lib.Flags) int {
 		if ans, err := lib.RunOnce(f.Driver, []string{driverLine(sc, r.Progs, r.Sched)}); err == nil {
 			fmt.Println("model:", ans[0])
 		}
+	}
+	if v := judgeSteps(r); v != nil {
+		fmt.Printf("STILL FAILS %s: %s (expected %s, observed %s)\n", v.sig, v.what, v.expected, v.observed)
+		return 1
 	}
 	if v := judge(sc, r.Hist, r.Final); v != nil {
 		fmt.Printf("STILL FAILS %s: %s (expected %s, observed %s)\n", v.sig, v.what, v.expected, v.observed)
